@@ -515,6 +515,14 @@ class SNeg:
 
     __rmul__ = __mul__
 
+    def __rshift__(self, k):
+        # floor semantics of Python's >> on a negative int:  -(m) >> k == -ceil(m / 2^k)
+        k = int(k)
+        if k == 0:
+            return self
+        r = SInt.lift(self.mag + ((1 << k) - 1)) >> k
+        return SNeg(r) if isinstance(r, (SInt, SLin, SBit)) else -int(r)
+
     def _zero(self):
         return self.mag._is_zero()
 
@@ -947,6 +955,21 @@ class SBits:
     def __hash__(self):
         raise TypeError("unhashable")
 
+    def any(self):
+        """bitarray.any(): some bit set (a symbolic truth value: forks where the caller branches on it)"""
+        return bnot(ball([bnot(tobit(x)) for x in self.b])) if self.b else False
+
+    def all(self):
+        return ball([tobit(x) for x in self.b]) if self.b else True
+
+    def count(self, value=1, *rng):
+        if rng:
+            raise OutOfReach("bitarray.count with a range")
+        tot = SLin({}, 0)
+        for x in self.b:
+            tot = tot + (tobit(x) if value else bnot(tobit(x)))
+        return tot.n() if isinstance(tot, SLin) else tot
+
     def tobytes(self):
         bits = list(self.b)
         while len(bits) % 8:
@@ -1193,11 +1216,22 @@ def s_int_from_bytes(b, byteorder="big", signed=False):
         b = b.tobytes()  # buffer protocol of bitarray == its bytes
     if isinstance(b, (bytes, bytearray)):
         return int.from_bytes(b, byteorder, signed=signed)
-    if signed:
-        raise OutOfReach("signed from_bytes")
     items = list(b)
     if byteorder == "big":
         items = items[::-1]
+    if signed:
+        # two's complement: decide the sign bit (forks when both signs are feasible); a negative value is -(2^n - u)
+        if any(type(x).__name__ == "SZInt" for x in items) or not items:
+            raise OutOfReach("signed from_bytes of word-level octets")
+        u = s_int_from_bytes(b, byteorder, signed=False)
+        n = 8 * len(items)
+        if isinstance(u, int):
+            return u - (1 << n) if u >> (n - 1) else u
+        u = SInt.lift(u)
+        if not bool(u.bit(n - 1)):
+            return SInt([u.bit(i) for i in range(n - 1)]).n()
+        low = SInt([bnot(u.bit(i)) for i in range(n - 1)]).n()  # 2^n - u = (~u & (2^(n-1) - 1)) + 1 when the sign bit is set
+        return SNeg(low + 1)
     if any(type(x).__name__ == "SZInt" for x in items):  # word-level octets: the value stays a linear integer term
         z = getattr(b, "zsrc", None)
         if z is not None and z[1] == byteorder:
